@@ -92,6 +92,20 @@ def bin_insn(op, T, form):
     raise AssertionError(form)
 
 
+def bin_shape_features(e):
+    """operand-shape refinements of a binary node: constant on the left (@cp) / on the right (@pc)"""
+    _, op, T, a, b, form = e
+    insn = bin_insn(op, T, form)
+    out = []
+    if a[0] == "const":
+        out.append("op:%s@cp" % insn)
+    if not isinstance(b, int) and b[0] == "const":
+        out.append("op:%s@pc" % insn)
+    if len(out) == 2:
+        out.append("op:%s@cc" % insn)
+    return out
+
+
 class Method:
     def __init__(self, name, ret, params, locals_, body, pool="P5", subject=None, shape=None, separate_banks=False):
         self.name, self.ret, self.params, self.locals, self.body = name, ret, list(params), list(locals_), body
@@ -277,6 +291,8 @@ class Compiler:
             _, op, T, a, b, form = e
             insn = bin_insn(op, T, form)
             self.feat.add("op:" + insn)
+            for f in bin_shape_features(e):
+                self.feat.add(f)
             if form in ("lit8", "lit16"):
                 mk = self.mark()
                 ra = self.eval(a)
@@ -383,8 +399,7 @@ class Compiler:
             self.eval(s[2], dest=self.loc[s[1]])
             self.reset(mk)
             if k == "dead":
-                e = s[2]
-                self.feat.add("dead:" + (bin_insn(e[1], e[2], e[5]) if e[0] == "bin" else e[1] if e[0] == "un" else e[0]))
+                self.feat.update(dead_features(s[2]))
             return True
         if k == "return":
             mk = self.mark()
@@ -1021,6 +1036,7 @@ class Gen:
                 continue
             if not all(stmt_ok(s) for s in body):
                 continue
+            body, _ = mark_dead(body)
             used = assigned_names(body)
             locals_ = [(n_, t) for n_, t in list(decl.items()) + [("k0", "I"), ("k1", "I"), ("k2", "I")] if n_ in used]
             m = Method(name, ret, params, locals_, body, pool=pool, subject=subject, separate_banks=r.random() < 0.25)
@@ -1105,8 +1121,11 @@ def p0_methods(rng):
                 ca = mkconst(T, rng.choice([-7, 5, 100] if T == "I" else [-7, 5, 300]))
                 cb = mkconst(tb, rng.choice([3, 5, 7] if shift else [-7, 6, 100] if tb == "I" else [-7, 6, 300]))
                 add(T, [("p0", T), ("p1", tb)], [], _ret(("bin", op, T, pa, pb, form)), "op:" + insn, "pp")
-                add(T, [("p0", T)], [], _ret(("bin", op, T, pa, cb, form)), "op:" + insn, "pc")
-                add(T, [("p0", tb)], [], _ret(("bin", op, T, ca, ("var", "p0"), form)), "op:" + insn, "cp")
+                add(T, [("p0", T)], [], _ret(("bin", op, T, pa, cb, form)), "op:" + insn + "@pc", "pc")
+                add(T, [("p0", tb)], [], _ret(("bin", op, T, ca, ("var", "p0"), form)), "op:" + insn + "@cp", "cp")
+                big = {"sub": I32_MIN}.get(op, I32_MAX) if T == "J" else {"sub": -100}.get(op, 100)
+                cc_b = mkconst(tb, 33 if shift else 3)
+                add(T, [("p0", T)], [], _ret(("bin", op, T, mkconst(T, big), cc_b, form)), "op:" + insn + "@cc", "cc")
                 if form == "2addr":  # x = x op y  (the in-place statement form)
                     add(T, [("p0", T), ("p1", tb)], [("x0", T)],
                         [("assign", "x0", pa), ("assign", "x0", ("bin", op, T, ("var", "x0"), pb, form)), ("return", ("var", "x0"))], "op:" + insn, "inplace")
@@ -1149,7 +1168,14 @@ def p0_methods(rng):
         for op in ("div", "rem", "add"):
             add(T, [("p0", T), ("p1", T)], [("d0", T)],
                 [("dead", "d0", ("bin", op, T, ("var", "p0"), ("var", "p1"), "3reg")), ("return", ("var", "p0"))], "dead:" + bin_insn(op, T, "3reg"), "pp")
-    add("I", [("p0", "I")], [("d0", "I")], [("dead", "d0", ("bin", "div", "I", ("var", "p0"), 0, "lit8")), ("return", ("var", "p0"))], "dead:div-int/lit8", "lit0")
+    for T in "IJ":
+        for op in ("div", "rem"):
+            add(T, [("p0", T), ("p1", T)], [("d0", T)],
+                [("dead", "d0", ("bin", op, T, ("var", "p0"), ("var", "p1"), "2addr")), ("return", ("var", "p0"))], "dead:" + bin_insn(op, T, "2addr"), "pp")
+    for op in ("div", "rem"):
+        for form in ("lit8", "lit16"):
+            add("I", [("p0", "I")], [("d0", "I")], [("dead", "d0", ("bin", op, "I", ("var", "p0"), 0, form)), ("return", ("var", "p0"))],
+                "dead:" + bin_insn(op, "I", form), "lit0")
     return ms
 
 
@@ -1244,25 +1270,21 @@ def neutralise(m, bad):
         lit = isinstance(b, int)
         if not lit:
             b = ex(b)
-        f = "op:" + bin_insn(op, T, form)
-        if f in bad:
+        node = ("bin", op, T, a, b, form)
+        fs = ["op:" + bin_insn(op, T, form)] + bin_shape_features(node)
+        hit = [f for f in fs if f in bad]
+        if hit:
             tb = "I" if op in ("shl", "shr", "ushr") else T
             bb = mkconst(tb, b) if lit else b
             for op2, form2 in ((op, "3reg"), ("xor", "3reg"), ("add", "3reg"), ("and", "3reg")):
                 if op2 == "rsub":
                     continue
-                if op2 != op and tb != T:
-                    # a shift count is int: keep the shape by converting the operator only when types agree
-                    if T == "J":
-                        bb2 = ("un", "int-to-long", bb)
-                    else:
-                        bb2 = bb
-                else:
-                    bb2 = bb
-                if "op:" + bin_insn(op2, T, form2) not in bad:
-                    done.add(f)
-                    return ("bin", op2, T, a, bb2, form2)
-        return ("bin", op, T, a, b, form)
+                bb2 = ("un", "int-to-long", bb) if (op2 != op and tb != T and T == "J") else bb  # a shift count is int
+                alt = ("bin", op2, T, a, bb2, form2)
+                if not any(f in bad for f in ["op:" + bin_insn(op2, T, form2)] + bin_shape_features(alt)):
+                    done.update(hit)
+                    return alt
+        return node
 
     def co(c):
         if c[0] == "cmp":
@@ -1276,10 +1298,9 @@ def neutralise(m, bad):
         for s in b:
             k = s[0]
             if k == "dead":
-                e = s[2]
-                f = "dead:" + (bin_insn(e[1], e[2], e[5]) if e[0] == "bin" else e[1] if e[0] == "un" else e[0])
-                if f in bad:
-                    done.add(f)
+                fs = [f for f in dead_features(s[2]) if f in bad]
+                if fs:
+                    done.update(fs)
                     continue
                 out.append(("dead", s[1], ex(s[2])))
             elif k == "assign":
@@ -1305,3 +1326,268 @@ def neutralise(m, bad):
     n = m.clone(body=body, separate_banks=sep)
     n.locals = [(a, t) for a, t in m.locals if a in used]
     return compile_method(n), done
+
+
+# =====================================================================================================
+# liveness: assignments whose value is never read become ("dead", ...) statements, so that the feature set says so
+# =====================================================================================================
+def expr_uses(e, out=None):
+    out = set() if out is None else out
+    k = e[0]
+    if k == "var":
+        out.add(e[1])
+    elif k == "un":
+        expr_uses(e[2], out)
+    elif k == "bin":
+        expr_uses(e[3], out)
+        if not isinstance(e[4], int):
+            expr_uses(e[4], out)
+    return out
+
+
+def cond_uses(c, out=None):
+    out = set() if out is None else out
+    if c[0] == "cmp":
+        expr_uses(c[3], out)
+        expr_uses(c[4], out)
+    elif c[0] == "not":
+        cond_uses(c[1], out)
+    else:
+        cond_uses(c[1], out)
+        cond_uses(c[2], out)
+    return out
+
+
+def mark_dead(stmts, live_out=frozenset()):
+    """-> (rewritten statements, live-in set)"""
+    live = set(live_out)
+    out = []
+    for s in reversed(stmts):
+        k = s[0]
+        if k == "return":
+            live = expr_uses(s[1])
+            out.append(s)
+        elif k in ("assign", "dead"):
+            if s[1] in live:
+                out.append(("assign", s[1], s[2]))
+                live = (live - {s[1]}) | expr_uses(s[2])
+            else:
+                out.append(("dead", s[1], s[2]))
+                live = live | expr_uses(s[2])
+        elif k == "if":
+            th, lt = mark_dead(s[2], live)
+            el, le = mark_dead(s[3], live) if s[3] else ([], set(live))
+            out.append(("if", s[1], th, el))
+            live = cond_uses(s[1]) | lt | le
+        elif k == "while":
+            L = set(live) | cond_uses(s[1])
+            while True:
+                body, lb = mark_dead(s[2], L)
+                L2 = L | lb
+                if L2 == L:
+                    break
+                L = L2
+            out.append(("while", s[1], body, s[3]))
+            live = L
+        elif k == "dowhile":
+            L = set(live) | cond_uses(s[2])
+            while True:
+                body, lb = mark_dead(s[1], L)
+                L2 = L | lb
+                if L2 == L:
+                    break
+                L = L2
+            out.append(("dowhile", body, s[2]))
+            live = lb
+        elif k == "switch":
+            _, e, cases, default, kind = s
+            after = set(live)
+            newcases = [None] * len(cases)
+            nxt_in = None
+            acc = set()
+            for i in range(len(cases) - 1, -1, -1):
+                ks, body, ft = cases[i]
+                lo = nxt_in if (ft and i < len(cases) - 1) else after
+                b2, li = mark_dead(body, lo)
+                newcases[i] = (ks, b2, ft)
+                nxt_in = li
+                acc |= li
+            if default is not None:
+                d2, ld = mark_dead(default, after)
+                acc |= ld
+            else:
+                d2 = None
+                acc |= after
+            out.append(("switch", e, newcases, d2, kind))
+            live = acc | expr_uses(e)
+        else:
+            raise AssertionError(s)
+    out.reverse()
+    return out, live
+
+
+def throwing_insns(e, out=None):
+    """div/rem instructions anywhere inside an expression"""
+    out = set() if out is None else out
+    if e[0] == "un":
+        throwing_insns(e[2], out)
+    elif e[0] == "bin":
+        if e[1] in ("div", "rem"):
+            out.add(bin_insn(e[1], e[2], e[5]))
+        throwing_insns(e[3], out)
+        if not isinstance(e[4], int):
+            throwing_insns(e[4], out)
+    return out
+
+
+def dead_features(e):
+    top = bin_insn(e[1], e[2], e[5]) if e[0] == "bin" else e[1] if e[0] == "un" else e[0]
+    return {"dead:" + top} | {"dead:" + i for i in throwing_insns(e)}
+
+
+# =====================================================================================================
+# pattern pools: one structural subject per method, benign glue only
+# =====================================================================================================
+def _c(v):
+    return mkconst("I", v)
+
+
+def _acc(delta=("var", "p1")):
+    return ("assign", "x0", ("bin", "add", "I", ("var", "x0"), delta, "3reg"))
+
+
+def _pat_construct(kind, body, depth, sel=("var", "p0")):
+    """-> list of statements implementing construct `kind` around `body` (list of statements)"""
+    k = "k%d" % depth
+    cond = ("cmp", "lt", "I", ("var", "p0"), ("var", "p1"), False) if depth == 0 else ("cmp", "gtz"[:2], "I", ("var", "p1"), _c(0), True)
+    inc = ("assign", k, ("bin", "add", "I", ("var", k), 1, "lit8"))
+    lc = ("cmp", "lt", "I", ("var", k), _c(3), False)
+    if kind == "if":
+        return [("if", cond, body, [])]
+    if kind == "if-else":
+        return [("if", cond, body, [("assign", "x0", ("bin", "xor", "I", ("var", "x0"), 5, "lit8"))])]
+    if kind == "while-top":
+        return [("assign", k, _c(0)), ("while", lc, body + [inc], "top")]
+    if kind == "while-bottom":
+        return [("assign", k, _c(0)), ("while", lc, body + [inc], "bottom")]
+    if kind == "do-while":
+        return [("assign", k, _c(0)), ("dowhile", body + [inc], lc)]
+    if kind in ("packed-switch", "sparse-switch"):
+        keys = [0, 1] if kind.startswith("packed") else [-100, 1000]
+        e = ("bin", "and", "I", sel, 1, "lit8") if kind.startswith("packed") else sel
+        return [("switch", e, [([keys[0]], body, False), ([keys[1]], [("assign", "x0", ("bin", "add", "I", ("var", "x0"), 7, "lit8"))], False)],
+                 [("assign", "x0", ("bin", "sub", "I", ("var", "x0"), ("var", "p0"), "3reg"))], kind.split("-")[0])]
+    raise AssertionError(kind)
+
+
+CONSTRUCTS = ("if", "if-else", "while-top", "while-bottom", "do-while", "packed-switch", "sparse-switch")
+
+
+def _locals_for(body):
+    used = assigned_names(body)
+    return [(n, "I") for n in ("x0", "x1", "k0", "k1", "k2") if n in used]
+
+
+def pattern_methods(rng):
+    """PC: control nesting, PS: switch shapes, PD: definition/declaration/type patterns. One subject per method."""
+    ms = []
+
+    def add(pool, ret, params, body, subject, shape, locals_=None):
+        body, _ = mark_dead(body)
+        m = Method("m%d" % len(ms), ret, params, locals_ if locals_ is not None else _locals_for(body), body, pool=pool, subject=subject, shape=shape)
+        ms.append(compile_method(m))
+    P2 = [("p0", "I"), ("p1", "I")]
+    x0 = ("var", "x0")
+    init = ("assign", "x0", ("bin", "mul", "I", ("var", "p0"), 3, "lit8"))
+    pre = ("assign", "x0", ("bin", "xor", "I", x0, ("var", "p1"), "3reg"))
+    post = ("assign", "x0", ("bin", "add", "I", x0, 1, "lit8"))
+    early = ("if", ("cmp", "gt", "I", x0, _c(100), False), [("return", ("var", "p1"))], [])
+    # ---- PC: single constructs and all two-level nestings
+    for a in CONSTRUCTS:
+        add("PC", "I", P2, [init] + _pat_construct(a, [_acc()], 0) + [("return", x0)], "nest:" + a, "single")
+        add("PC", "I", P2, [init] + _pat_construct(a, [_acc(), early], 0) + [("return", x0)], "nest:" + a, "single+early-return")
+        for b in CONSTRUCTS:
+            for pos in ("only", "first", "last", "mid"):
+                inner = _pat_construct(b, [_acc()], 1, sel=("var", "p1"))
+                body = ([pre] if pos in ("last", "mid") else []) + inner + ([post] if pos in ("first", "mid") else [])
+                add("PC", "I", P2, [init] + _pat_construct(a, body, 0) + [("return", x0)], "nest:%s/%s" % (a, b), pos)
+        # two constructs in sequence
+        for b in CONSTRUCTS:
+            add("PC", "I", P2, [init] + _pat_construct(a, [_acc()], 0) + _pat_construct(b, [_acc(_c(2))], 1, sel=("var", "p1")) + [("return", x0)],
+                "seq:%s;%s" % (a, b), "seq")
+    # ---- PS: switch shapes
+    for kind in ("packed", "sparse"):
+        keys = [0, 1, 2, 3] if kind == "packed" else [-100, 0, 7, 1000]
+        sel = ("var", "p0")
+        a1 = [("assign", "x0", ("bin", "mul", "I", ("var", "p1"), x0, "3reg"))]
+        r1 = [("return", x0)]
+        r2 = [("return", _c(-200))]
+        brk = []
+        variants = {
+            "all-break": ([([keys[0]], a1, False), ([keys[1]], [post], False)], [pre]),
+            "no-default": ([([keys[0]], a1, False), ([keys[1]], [post], False)], None),
+            "empty-default": ([([keys[0]], a1, False), ([keys[1]], [post], False)], []),
+            "case-returns": ([([keys[0]], a1, False), ([keys[1]], r1, False)], [pre]),
+            "case-returns-no-default": ([([keys[0]], a1, False), ([keys[1]], r1, False)], None),
+            "last-case-returns-const": ([([keys[0]], a1, False), ([keys[1]], r2, False)], [pre]),
+            "two-labels-return-const": ([([keys[0]], a1, False), ([keys[1]], r1, False), ([keys[2], keys[3]], r2, False)], []),
+            "two-cases-return": ([([keys[0]], a1, False), ([keys[1]], r1, False), ([keys[2]], r2, False)], [pre]),
+            "all-cases-return": ([([keys[0]], r1, False), ([keys[1]], r2, False)], [pre]),
+            "all-return-incl-default": ([([keys[0]], r1, False), ([keys[1]], r2, False)], [("return", ("var", "p1"))]),
+            "fallthrough": ([([keys[0]], a1, True), ([keys[1]], [post], False)], [pre]),
+            "fallthrough-into-return": ([([keys[0]], a1, True), ([keys[1]], r1, False)], [pre]),
+            "multi-label": ([([keys[0], keys[2]], a1, False), ([keys[1]], [post], False)], [pre]),
+            "empty-case": ([([keys[0]], a1, False), ([keys[1]], brk, False)], [pre]),
+            "empty-cases-empty-default": ([([keys[0]], a1, False), ([keys[1], keys[2]], brk, False)], []),
+            "default-returns": ([([keys[0]], a1, False), ([keys[1]], [post], False)], [("return", ("var", "p1"))]),
+            "if-in-case": ([([keys[0]], [("if", ("cmp", "lt", "I", x0, ("var", "p1"), False), a1, [post])], False), ([keys[1]], [post], False)], [pre]),
+        }
+        for vn, (cases, default) in variants.items():
+            sw = ("switch", sel, cases, default, kind)
+            tail = [("return", ("bin", "or", "I", x0, 7, "lit8"))]
+            add("PS", "I", P2, [init, sw] + (tail if stmt_falls(sw) else []), "switch:%s:%s" % (kind, vn), "top")
+            add("PS", "I", P2, [init, ("if", ("cmp", "gt", "I", ("var", "p1"), ("var", "p0"), False), [sw], [post])] + tail, "switch:%s:%s" % (kind, vn), "in-if-else")
+    # ---- PD: definitions, declarations, variable types
+    c1 = ("cmp", "lt", "I", ("var", "p0"), ("var", "p1"), False)
+    T1 = ("assign", "x1", ("bin", "add", "I", ("var", "p0"), 1, "lit8"))
+    T2 = ("assign", "x1", ("bin", "add", "I", ("var", "p1"), -2, "lit8"))
+    rx1 = ("return", ("var", "x1"))
+    lc = ("cmp", "lt", "I", ("var", "k0"), _c(3), False)
+    inc = ("assign", "k0", ("bin", "add", "I", ("var", "k0"), 1, "lit8"))
+    k0 = ("assign", "k0", _c(0))
+    pd = {
+        "def-in-both-branches-use-after": [("if", c1, [T1], [T2]), rx1],
+        "def-in-both-branches-use-in-nested-if-after": [("if", c1, [T1], [T2]), ("if", ("cmp", "gt", "I", ("var", "p0"), _c(0), True), [("return", ("var", "x1"))], []), ("return", _c(0))],
+        "def-before-and-in-one-branch": [T2, ("if", c1, [T1], []), rx1],
+        "def-in-both-branches-only-dead-use-after": [("if", c1, [T1], [T2]), ("assign", "x0", ("bin", "mul", "I", ("var", "x1"), 3, "lit8")), ("return", ("var", "p0"))],
+        "def-in-both-branches-no-use-after": [("if", c1, [T1, ("return", ("var", "x1"))], [T2, ("return", ("bin", "xor", "I", ("var", "x1"), 1, "lit8"))])],
+        "same-register-counters-in-sibling-branches": [("assign", "x0", _c(0)), ("if", c1, [k0, ("while", lc, [_acc(), inc], "top")], [k0, ("while", lc, [_acc(_c(2)), inc], "top")]), ("return", x0)],
+        "def-in-while-body-use-after": [T2, k0, ("while", lc, [T1, inc], "top"), rx1],
+        "def-only-in-do-while-body-use-after": [k0, ("dowhile", [T1, inc], lc), rx1],
+        "def-only-in-do-while-body-use-after-and-in-body": [k0, ("dowhile", [T1, ("assign", "x1", ("bin", "add", "I", ("var", "x1"), ("var", "k0"), "3reg")), inc], lc), rx1],
+        "def-in-all-switch-arms-use-after": [("switch", ("bin", "and", "I", ("var", "p0"), 1, "lit8"), [([0], [T1], False), ([1], [T2], False)], [("assign", "x1", _c(5))], "packed"), rx1],
+        "loop-counter-used-after-loop": [k0, ("while", lc, [inc], "top"), ("return", ("var", "k0"))],
+        "accumulator-defined-before-loop": [("assign", "x1", _c(0)), k0, ("while", lc, [("assign", "x1", ("bin", "add", "I", ("var", "x1"), ("var", "k0"), "3reg")), inc], "top"), rx1],
+        "div-before-branch-used-in-one-branch": [("assign", "x1", ("bin", "div", "I", ("var", "p0"), ("var", "p1"), "3reg")), ("if", ("cmp", "gt", "I", ("var", "p0"), _c(0), True), [rx1], []), ("return", _c(0))],
+        "div-before-loop-used-after": [("assign", "x1", ("bin", "div", "I", ("var", "p0"), ("var", "p1"), "3reg")), k0, ("while", lc, [inc], "top"), rx1],
+        "div-in-unused-nested-expression": [("assign", "x1", ("bin", "add", "I", ("bin", "div", "I", ("var", "p0"), ("var", "p1"), "3reg"), 1, "lit8")), ("return", ("var", "p0"))],
+        "two-divs-order": [("assign", "x0", ("bin", "div", "I", ("var", "p0"), ("var", "p1"), "3reg")), ("assign", "x1", ("bin", "rem", "I", ("var", "p1"), ("var", "p0"), "3reg")),
+                           ("return", ("bin", "sub", "I", ("var", "x1"), x0, "3reg"))],
+    }
+    for name, body in pd.items():
+        add("PD", "I", P2, body, "decl:" + name, "int")
+    for cast in ("int-to-byte", "int-to-char", "int-to-short"):
+        N = ("assign", "x1", ("un", cast, ("var", "p0")))
+        W_ = ("assign", "x1", ("bin", "add", "I", ("var", "p0"), ("var", "p1"), "3reg"))
+        tp = {
+            "wide-def-then-narrow-def-in-branch": [W_, ("if", c1, [N], []), rx1],
+            "narrow-def-then-wide-def-in-branch": [N, ("if", c1, [W_], []), rx1],
+            "narrow-def-then-inplace-add": [N, ("assign", "x1", ("bin", "add", "I", ("var", "x1"), ("var", "p1"), "2addr")), rx1],
+            "narrow-def-then-inplace-add-lit": [N, ("assign", "x1", ("bin", "add", "I", ("var", "x1"), 100, "lit8")), rx1],
+            "narrow-def-then-increment-in-loop": [N, k0, ("while", lc, [("assign", "x1", ("bin", "add", "I", ("var", "x1"), 127, "lit8")), inc], "top"), rx1],
+            "narrow-in-one-branch-wide-in-other": [("if", c1, [N], [W_]), rx1],
+            "narrow-def-used-in-arith": [N, ("return", ("bin", "mul", "I", ("var", "x1"), ("var", "p1"), "3reg"))],
+        }
+        for name, body in tp.items():
+            add("PD", "I", P2, body, "type:%s:%s" % (cast, name), cast)
+    return ms
